@@ -53,7 +53,7 @@ def build(tstep, method):
     ss.add('PV', dict(idx='G1', bus=1, p0=p['P'], v0=p['V1'], Sn=100.0, Vn=20.0, pmax=99, pmin=-99, qmax=99, qmin=-99))
     ss.add('Line', dict(idx='L1', bus1=1, bus2=2, r=0.0, x=p['x1'], b=0.0, Vn1=20.0, Vn2=20.0, Sn=100.0))
     ss.add('Line', dict(idx='L2', bus1=1, bus2=2, r=0.0, x=p['x2'], b=0.0, Vn1=20.0, Vn2=20.0, Sn=100.0))
-    ss.add('GENCLS', dict(idx='M1', bus=1, gen='G1', Sn=100.0, Vn=20.0, M=p['M'], D=p['D'], xd1=p['xd1'], ra=0.0, fn=60.0))
+    ss.add('GENCLS', dict(idx='M1', bus=1, gen='G1', Sn=p.get('Sn', 100.0), Vn=20.0, M=p['M'], D=p['D'], xd1=p['xd1'], ra=0.0, fn=60.0))
     ss.add('Toggle', dict(model='Line', dev='L2', t=p['t_trip']))
     if p['t_close'] > 0:
         ss.add('Toggle', dict(model='Line', dev='L2', t=p['t_close']))
@@ -75,13 +75,17 @@ Vinf = p['Vinf']
 def xline(on2):
     return (p['x1'] * p['x2'] / (p['x1'] + p['x2'])) if on2 else p['x1']
 I = (V1 - Vinf) / (1j * xline(True))               # current from the machine bus into the network
-E = V1 + 1j * p['xd1'] * I
+# machine data are given on the machine rating Sn; the network is on the 100 MVA system base
+kS = p.get('Sn', 100.0) / 100.0
+xd1s, Ds = p['xd1'] / kS, p['D'] * kS
+Ms = (p.get('M_alter') or p['M']) * kS          # (M_alter: the inertia is changed through alter() after TDS.init)
+E = V1 + 1j * xd1s * I
 Emag, delta0 = abs(E), cmath.phase(E)
 Pm = (V1 * np.conj(I)).real
 w0 = 2 * math.pi * 60.0
 def rhs(on2):
-    X = p['xd1'] + xline(on2)
-    return lambda t, y: [w0 * (y[1] - 1.0), (Pm - Emag * Vinf / X * math.sin(y[0]) - p['D'] * (y[1] - 1.0)) / p['M']]
+    X = xd1s + xline(on2)
+    return lambda t, y: [w0 * (y[1] - 1.0), (Pm - Emag * Vinf / X * math.sin(y[0]) - Ds * (y[1] - 1.0)) / Ms]
 bps = [0.0, p['t_trip']] + ([p['t_close']] if p['t_close'] > 0 else []) + [p['tf']]
 states = [True, False, True]
 def reference(ts):
@@ -99,6 +103,9 @@ errs = []
 for k in (1, 2, 4):
     ss, ok = build(1/30/k, p['method'])
     with contextlib.redirect_stdout(sink):
+        if p.get('M_alter'):
+            ss.TDS.init()
+            ss.GENCLS.alter('M', 'M1', p['M_alter'])
         done = ss.TDS.run()
     ts = [float(t) for t in ss.dae.ts.t]
     d_addr = int(ss.GENCLS.delta.a[0]); w_addr = int(ss.GENCLS.omega.a[0])
@@ -136,20 +143,38 @@ def mk(tstep):
         ss.TDS.init()
     return ss
 ss = mk(1/120)
-with contextlib.redirect_stdout(sink):
-    ss.EIG.calc_As()
-As = np.array(ss.EIG.As)
-nz = int(np.count_nonzero(np.array(ss.dae.Tf) == 0))
+# reference linear model computed here from the Jacobian blocks (not by the EIG routine): states with a zero time
+# constant are algebraic, As = T_D^-1 (F_DD - F_DA G_AA^-1 G_AD) over the states D with T != 0
+from kvxopt import matrix as _mat
+def dense(sp):
+    return np.array(_mat(sp))
+models = ss.exist.pflow_tds
+ss.TDS.fg_update(models); ss.j_update(models)
+fx, fy, gx, gy = dense(ss.dae.fx), dense(ss.dae.fy), dense(ss.dae.gx), dense(ss.dae.gy)
+Tf = np.array(ss.dae.Tf, dtype=float)
+D = np.where(Tf != 0)[0]; Z = np.where(Tf == 0)[0]
+nz = len(Z)
+F = np.block([[fx, fy], [gx, gy]])
+nx = len(Tf)
+A_idx = np.concatenate([Z, nx + np.arange(gy.shape[0])]).astype(int)
+FAA = F[np.ix_(A_idx, A_idx)]
+if np.linalg.matrix_rank(FAA) < len(A_idx) or np.linalg.cond(FAA) > 1e13:
+    # states with zero time constants whose equations do not determine them (second-order blocks with both time
+    # constants zero, IEEEST in ieee39_full): no reduced linear model exists to compare with
+    print(json.dumps({'skip': 'the block of algebraic variables and zero-time-constant states is singular', 'zero_T': int(nz)}))
+    sys.exit(0)
+As = (F[np.ix_(D, D)] - F[np.ix_(D, A_idx)] @ np.linalg.solve(FAA, F[np.ix_(A_idx, D)])) / Tf[D][:, None]
 xeq = ss.dae.x.copy()
 rng = np.random.default_rng(p['seed'])
 # excite slow modes only (|lambda| < 20 1/s): a random perturbation would mostly excite stiff modes (|h lambda| >> 1),
 # for which no implicit one-step method at this step size reproduces the exponential
 mu0, N0 = np.linalg.eig(As)
 slow = [k for k in range(len(mu0)) if abs(mu0[k]) < 20.0]
-d = np.zeros(len(xeq))
+dD = np.zeros(len(D))
 for k in rng.choice(slow, size=min(3, len(slow)), replace=False):
-    d += rng.normal() * np.real(N0[:, k]) + rng.normal() * np.imag(N0[:, k])
-d *= p['eps'] / np.linalg.norm(d)
+    dD += rng.normal() * np.real(N0[:, k]) + rng.normal() * np.imag(N0[:, k])
+dD *= p['eps'] / np.linalg.norm(dD)
+d = np.zeros(len(xeq)); d[D] = dD        # the zero-T states follow algebraically (first negligible run below)
 res = []
 for k in (1, 2):
     ss = mk(1/120/k)
@@ -166,11 +191,11 @@ for k in (1, 2):
     worst = worst_s = 0.0
     h0 = float(ts[1] - ts[0]) if len(ts) > 1 else 0.0
     for i in range(0, len(ts), max(1, len(ts) // 40)):
-        lin = expm(As * ts[i]) @ d
-        worst = max(worst, float(np.linalg.norm(xs[i] - xeq - lin)))
+        lin = expm(As * ts[i]) @ dD
+        worst = max(worst, float(np.linalg.norm((xs[i] - xeq)[D] - lin)))
         # the loop integrates one step BEFORE storing the first row at t=0: rows are one step ahead of their stamps
-        lin_s = expm(As * (ts[i] + h0)) @ d
-        worst_s = max(worst_s, float(np.linalg.norm(xs[i] - xeq - lin_s)))
+        lin_s = expm(As * (ts[i] + h0)) @ dD
+        worst_s = max(worst_s, float(np.linalg.norm((xs[i] - xeq)[D] - lin_s)))
     res.append({'h': 1/120/k, 'ok': bool(ok), 'err': worst, 'rel': worst / p['eps'], 'rel_shifted': worst_s / p['eps']})
 mu = np.linalg.eigvals(As)
 print(json.dumps({'res': res, 'n': len(xeq), 'zero_T': nz, 'max_re': float(mu.real.max()),
@@ -204,7 +229,10 @@ def gen_smib(rng):
         return x
     t_trip = when(0.1, 0.6)
     t_close = when(t_trip + 0.05, t_trip + 0.5) if rng.random() < 0.7 else -1.0
-    return {'M': round(rng.uniform(3.0, 12.0), 2), 'D': rng.choice([0.0, 0.0, 1.0, 4.0]), 'xd1': round(rng.uniform(0.15, 0.4), 3),
+    Sn = rng.choice([100.0, 100.0, 50.0, 200.0, 80.0])
+    M = round(rng.uniform(3.0, 12.0), 2)
+    return {'Sn': Sn, 'M_alter': (round(M * 100.0 / Sn * rng.choice([0.6, 1.5]), 3) if rng.random() < 0.3 else None),
+            'M': round(M * 100.0 / Sn, 3), 'D': rng.choice([0.0, 0.0, 1.0, 4.0]) * 100.0 / Sn, 'xd1': round(rng.uniform(0.15, 0.4) * Sn / 100.0, 4),
             'x1': x1, 'x2': x2, 'P': round(rng.uniform(0.3, 0.9), 2), 'V1': rng.choice([1.0, 1.02, 1.05]), 'Vinf': 1.0,
             't_trip': t_trip, 't_close': t_close, 'tf': 2.0, 'method': rng.choice(['trapezoid', 'trapezoid', 'backeuler'])}
 
@@ -222,6 +250,9 @@ def run(ctx):
     worst_ratio = {}
     for (script, spec), r in zip(jobs, res):
         ctx.case(json.dumps(spec, sort_keys=True), spec)
+        if 'skip' in r:
+            ctx.count('small_signal_skipped_singular_zeroT_block')
+            continue
         if 'error' in r:
             if 'power flow did not converge' in r['error']:
                 ctx.count('smib_pflow_not_converged')
